@@ -181,6 +181,28 @@ func planC12(tier string, root *simcore.RNG) *plan {
 		}
 		pl.scenarios = append(pl.scenarios, sc)
 	}
+	// part 1c: a failed render followed by healthy renders into the same format
+	for _, sink := range []string{"stl", "3mf", "dxf", "svg"} {
+		for _, fk := range []Fault{{Kind: "devfull"}, {Kind: "fsize", Budget: 100}, {Kind: "fsize", Budget: 5000}, {Kind: "vanish"}, {Kind: "nodir"}, {Kind: "isdir"}} {
+			r := root.Fork()
+			kind := "script3"
+			if sink == "dxf" || sink == "svg" {
+				kind = "script2"
+			}
+			n := 200 + r.Intn(800)
+			bad := Job{ID: 1, Kind: kind, Sink: sink, N: n, Batches: genPartition(r, n, 1, "fives"), Coords: "index", Fault: fk}
+			good := Job{ID: 2, Kind: kind, Sink: sink, N: n / 2, Batches: genPartition(r, n/2, 1, "small"), Coords: "index"}
+			real := Job{ID: 3, Kind: "mco", Sink: sink, Model: pick(r, model3Names), Cells: 8}
+			if kind == "script2" {
+				real = Job{ID: 3, Kind: "msu", Sink: sink, Model: pick(r, model2Names), Cells: 16}
+			}
+			sites := activeSites(r, sink, true)
+			sites["write"] = 8
+			sc := &Scenario{Prop: "C12", Family: "fault", Seed: r.Uint64(), Groups: [][]Job{{bad}, {good}, {real}}, Sites: sites, Env: genEnv(r),
+				Sched: Sched{Policy: pick(r, []string{"fifo", "uniform"}), Seed: r.Uint64()}}
+			pl.scenarios = append(pl.scenarios, sc)
+		}
+	}
 	// part 2: goroutine census over render histories
 	histories := 6
 	reps := 4
